@@ -53,9 +53,9 @@ Definition zseq (start n : Z) : list Z := zseq_nat start (Z.to_nat n).
 
 Definition byte_at (code : list Z) (i : Z) : Z := (znth code i) mod 256.
 
-Definition be_to_Z (bs : list Z) : Z := fold_left (fun acc b => acc * 256 + b) bs 0.
+Definition be_to_Z (bs : list Z) : Z := fold_left (fun acc b => 256 * acc + b) bs 0.
 Fixpoint Z_to_be_rev (n : nat) (v : Z) : list Z :=
-  match n with O => [] | S k => (v mod 256) :: Z_to_be_rev k (v / 256) end.
+  match n with O => [] | S k => Z.land v 255 :: Z_to_be_rev k (Z.shiftr v 8) end.   (* = v mod 256, v / 256 *)
 Definition Z_to_be (n : nat) (v : Z) : list Z := rev (Z_to_be_rev n v).
 
 (* ---------- memory (interpreter/memory.rs, instructions/memory.rs) ---------- *)
